@@ -158,7 +158,19 @@ fn check_faulty_write(conf: &AisleConf, golden: &[u8], faults: &[WriteFault], ou
     }
 }
 
+/// `execute_inner` with every library panic turned into a violation
 pub fn execute(sc: &AisleScenario) -> (Vec<Violation>, AisleStats) {
+    match catch_unwind(AssertUnwindSafe(|| execute_inner(sc))) {
+        Ok(r) => r,
+        Err(p) => {
+            let loc = crate::sim::take_last_panic().unwrap_or_default();
+            let msg = p.downcast_ref::<&str>().map(|s| s.to_string()).or_else(|| p.downcast_ref::<String>().cloned()).unwrap_or_default();
+            (vec![v("panic", format!("a library call panicked during the history on {:?}: {msg} ({loc})", sc.text))], AisleStats::default())
+        }
+    }
+}
+
+fn execute_inner(sc: &AisleScenario) -> (Vec<Violation>, AisleStats) {
     let mut out = Vec::new();
     let mut st = AisleStats::default();
     cooklang::verif_seam::reseed(sc.hash_seed);
@@ -270,8 +282,10 @@ pub fn execute(sc: &AisleScenario) -> (Vec<Violation>, AisleStats) {
         return (out, st);
     }
     // ---- replicas and histories
-    let mut a = aisle::parse(text).unwrap();
-    let mut b = aisle::parse(text).unwrap();
+    let (Ok(mut a), Ok(mut b), Ok(fresh)) = (aisle::parse(text), aisle::parse(text), aisle::parse(text)) else {
+        out.push(v("replica-divergence", format!("a second parse of {text:?} failed although the first succeeded")));
+        return (out, st);
+    };
     for (which, ops) in [(0, &sc.ops_a), (1, &sc.ops_b)] {
         for op in ops {
             st.ops += 1;
@@ -349,7 +363,7 @@ pub fn execute(sc: &AisleScenario) -> (Vec<Violation>, AisleStats) {
     if a != b || a.categories != b.categories {
         out.push(v("replica-divergence", format!("two parses of {text:?} are unequal after histories {:?} / {:?} (categories equal: {})", sc.ops_a, sc.ops_b, a.categories == b.categories)));
     }
-    if a != conf || b != conf {
+    if a != fresh || b != fresh || fresh != a || fresh != b {
         out.push(v("replica-divergence", format!("a replica is unequal to a fresh parse of the same text after its history ({:?} / {:?})", sc.ops_a, sc.ops_b)));
     }
     match (write_golden(&a), write_golden(&b)) {
@@ -435,7 +449,9 @@ pub fn gen_scenario(run_seed: u64) -> AisleScenario {
 /// before every call, for one configuration (the enumerated part of C11).
 pub fn enumerate_write_faults(text: &str) -> Vec<AisleScenario> {
     let mut v = Vec::new();
-    let Ok(conf) = aisle::parse(text) else { return v };
+    let base = AisleScenario { text: text.to_string(), hash_seed: 1, ops_a: vec![AisleOp::Lookup, AisleOp::Reparse], ops_b: vec![AisleOp::Reparse] };
+    v.push(base);
+    let Ok(Ok(conf)) = catch_unwind(AssertUnwindSafe(|| aisle::parse(text))) else { return v };
     let mut w = FaultyWriter::new(vec![], false);
     if aisle::write(&conf, &mut w).is_err() {
         return v;
